@@ -81,9 +81,9 @@ impl LineParser {
         if self.allow_multiple_commands || self.command.is_empty() {
             if let Some(line) = line.strip_prefix("$ ") {
                 self.in_command = true;
-                if !self.command.is_empty() {
-                    self.end_testcase(index)?;
-                }
+                // what has been collected belongs to the previous command, or,
+                // when there is none, to no test case at all (which is an error)
+                self.end_testcase(index)?;
                 if self.output_start_index.is_none() {
                     self.output_start_index = Some(index);
                 }
@@ -137,8 +137,10 @@ impl LineParser {
     /// validity of the testcase, add it to the stack and flush the state
     /// so that the next testcase(s) can be processed.
     pub(super) fn end_testcase(&mut self, line_index: usize) -> Result<()> {
-        let (has_commands, has_expectations) =
-            (!self.command.is_empty(), !self.expectations.is_empty());
+        let (has_commands, has_expectations) = (
+            !self.command.is_empty(),
+            !self.expectations.is_empty() || self.exit_code.is_some(),
+        );
         if !has_commands {
             if has_expectations {
                 bail!(
